@@ -738,6 +738,13 @@ class RequestHandler:
                 "(should be lowercase)",
                 DeprecationWarning,
             )
+        # Fail now rather than in flush() (after the response has started)
+        # if the cookie cannot be sent as a header value.
+        try:
+            self._convert_header_value(morsel.OutputString(None))
+        except ValueError:
+            del self._new_cookie[name]
+            raise
 
     def clear_cookie(self, name: str, **kwargs: Any) -> None:
         """Deletes the cookie with the given name.
